@@ -3,6 +3,7 @@
 package props
 
 import (
+	"math"
 	"fmt"
 	"math/rand/v2"
 	"sort"
@@ -81,6 +82,9 @@ type c08cfg struct {
 	// Shift: with a size function, every size and the limit are multiplied by
 	// 2^Shift (sizes counted in bytes of large objects: totals beyond 2^31, 2^32, 2^53)
 	Shift uint `json:"sizes_times_2_to_the,omitempty"`
+	// MaxScale: every size is multiplied by MaxInt64/Limit, so that the limit is
+	// (just below) MaxInt64 and size + new size passes MaxInt64
+	MaxScale bool `json:"limit_near_max_int64,omitempty"`
 }
 
 type c08stats struct {
@@ -115,13 +119,15 @@ func c08run(c *fw.Ctx, cfg c08cfg, ops []cop, fixParent bool) (div *heapDiv, st 
 		c.Add("runs_without_evict_callback", 1)
 	}
 	if !cfg.Unit {
-		conf = conf.WithSize(func(v CVal) int64 { return v.Sz << cfg.Shift })
+		conf = conf.WithSize(func(v CVal) int64 {
+			if cfg.MaxScale && v.Sz > cfg.Limit {
+				return math.MaxInt64 // too large; the product would not fit an int64
+			}
+			return v.Sz * c08scale(cfg)
+		})
 	}
-	shift := cfg.Shift
-	if cfg.Unit {
-		shift = 0
-	}
-	ch := cache.New(cfg.Limit<<shift, conf)
+	scale := c08scale(cfg)
+	ch := cache.New(cfg.Limit*scale, conf)
 	ref := &lruModel{Limit: cfg.Limit}
 	step := 0
 	fail := func(format string, args ...any) *heapDiv {
@@ -232,15 +238,15 @@ func c08run(c *fw.Ctx, cfg c08cfg, ops []cop, fixParent bool) (div *heapDiv, st 
 		if got, want := ch.Len(), len(ref.Es); got != want {
 			return fail("after %v: Len=%d want %d", o, got, want), st
 		}
-		if got, want := ch.Size(), ref.size()<<shift; got != want || got > cfg.Limit<<shift {
-			return fail("after %v: Size=%d want %d (limit %d)", o, got, want, cfg.Limit<<shift), st
+		if got, want := ch.Size(), ref.size()*scale; got != want || got > cfg.Limit*scale {
+			return fail("after %v: Size=%d want %d (limit %d)", o, got, want, cfg.Limit*scale), st
 		}
 		for k := -1; k <= cfg.Keys; k++ {
 			if got, want := ch.Has(k), ref.has(k); got != want {
 				return fail("after %v: Has(%d)=%v want %v", o, k, got, want), st
 			}
 		}
-		if size, count, _, err := ch.VerifCheck(nil); err != nil || size != ref.size()<<shift || count != len(ref.Es) {
+		if size, count, _, err := ch.VerifCheck(nil); err != nil || size != ref.size()*scale || count != len(ref.Es) {
 			return fail("after %v: accounting hook: size=%d count=%d err=%v (reference size=%d count=%d)", o, size, count, err, ref.size(), len(ref.Es)), st
 		}
 		st.hookChecks++
@@ -272,6 +278,17 @@ func c08run(c *fw.Ctx, cfg c08cfg, ops []cop, fixParent bool) (div *heapDiv, st 
 		return fail("after final Clear: Len=%d Size=%d", ch.Len(), ch.Size()), st
 	}
 	return nil, st
+}
+
+// c08scale is the number of size units per reference unit for a configuration.
+func c08scale(cfg c08cfg) int64 {
+	switch {
+	case cfg.Unit:
+		return 1
+	case cfg.MaxScale:
+		return (math.MaxInt64 - 1) / cfg.Limit
+	}
+	return 1 << cfg.Shift
 }
 
 var refBefore string
@@ -573,6 +590,7 @@ func runC08(c *fw.Ctx) {
 		cfg.NoCallback = k%5 == 3
 		if !cfg.Unit && k%3 == 1 {
 			cfg.Shift = []uint{26, 27, 28, 29, 31, 32, 33, 48, 56}[r.IntN(9)]
+			cfg.MaxScale = r.IntN(4) == 0
 			c.Add("runs_with_sizes_beyond_2_to_the_31", 1)
 		}
 		if k%7 == 0 { // small caches: no allowance for F1 whatever
